@@ -49,6 +49,11 @@ var c13Bundles = [][]c13File{
 	{{"one.soy", "{namespace a}\n{/switch}\n"},
 		{"two.soy", "{namespace b}\n/** */\n{template .u}\n{foreach $x in}\n{/template}\n"},
 		{"three.soy", "{namespace c}\n/** */\n{template .v1}\nsome text {sp} and more text\n{/template}\n/** @param x */\n{template .v2}\n{if $x}a{elseif not $x}b{else}c{/if}{$x|escapeUri}\n{/template}\n/** */\n{template .v3}\n{'unterminated}\n{/template}\n"}},
+	// 15: a param forwarded by data="all" in one file, the same name declared but unused in another
+	// (rejected whatever the order in which the files are added)
+	{{"one.soy", "{namespace a}\n/** @param x */\n{template .fwd}\n{call c.sink data=\"all\"/}\n{/template}\n"},
+		{"two.soy", "{namespace c}\n/** @param? x */\n{template .sink}\n{$x}\n{/template}\n/** @param x */\n{template .stale}\nno use\n{/template}\n"},
+		{"three.soy", "{namespace d}\n/** @param x */\n{template .fwd2}\n{call c.sink data=\"all\"/}\n{/template}\n"}},
 }
 
 var c13Globals = data.Map{"G_MAP": data.Map{"k2": data.Int(2), "k1": data.String("v")}, "G_LIST": data.List{data.Int(1), data.String("s")}, "G_STR": data.String("g")}
